@@ -370,8 +370,8 @@ def run_case(c):
                 static_qubits = list(range(n))
             elif form == "static-qubits":  # static entry point, explicit (permuted) qubit list on a wider circuit
                 from qiskit import QuantumCircuit
-                host = QuantumCircuit(n + 1)
                 static_qubits = list(c["qubits"])
+                host = QuantumCircuit(max(n + 1, max(static_qubits) + 1) if not c.get("exact_width") else n)
                 BaaLowRankInitialize.initialize(host, list(v), qubits=static_qubits, opt_params=opt)
                 gate = host.data[0].operation
             else:
@@ -386,6 +386,8 @@ def run_case(c):
         res["checks"].append((case_key("raises", c), False, f"{type(e).__name__}: {e}", True, rep))
         return res
     node = gate.node
+    if c.get("formcheck"):
+        res["checks"].append(_form_plan_check(c, node, rep))
     if c.get("expect") == "reject-or-close":
         # accepted: the result must be right for the (normalised) up-cast input to 1e-5
         res["counts"].append("diversity:reduced-precision:accepted")
@@ -812,6 +814,13 @@ def gen_entry_cases(ctx):
         add(n, kind, "static", pr.choice([0.0, 0.1]), pr.choice(STRATS), pr.random() < 0.5, 0)
         qs = pr.sample(range(n + 1), n)
         add(n, kind, "static-qubits", pr.choice([0.0, 0.1]), pr.choice(STRATS), pr.random() < 0.5, 0, qubits=qs)
+        # the explicit list covers the WHOLE register of an n-qubit host, in a non-ascending order
+        qs = pr.sample(range(n), n)
+        if qs == sorted(qs):
+            qs = qs[::-1]
+        add(n, kind, "static-qubits", pr.choice([0.0, 0.1]), pr.choice(STRATS), pr.random() < 0.5, 0, qubits=qs)
+        cases[-1]["exact_width"] = True
+        cases[-1]["tag"] = "whole-register-permuted"
     for n, kind, l in [(4, "haar", 0.0), (5, "haar", 0.0), (5, "lowrank", 0.05), (6, "groups", 0.0)]:
         iso, uni = pr.choice([("knill", "qsd"), ("knill", "csd"), ("ccd", "csd")])
         add(n, kind, "schemes", l, pr.choice(STRATS), True, 0, iso=iso, uni=uni)
@@ -1356,7 +1365,10 @@ def _dv_construct(c):
             o = _mk_opt(c)
             kw["opt_params"] = o
         before = len(host.data)
-        BaaLowRankInitialize.initialize(host, P, **kw)
+        if c.get("argpos"):               # every argument positional: initialize(q_circuit, state, qubits, opt_params)
+            BaaLowRankInitialize.initialize(host, P, kw.get("qubits"), kw.get("opt_params"))
+        else:
+            BaaLowRankInitialize.initialize(host, P, **kw)
         dv["appended"] = len(host.data) - before
         dv.update(gate=host.data[-1].operation, host=host, static_qubits=listed, idle=idle, opt_obj=o, opt_snap=copy.deepcopy(o),
                   qarg=qarg, qarg_snap=None if qarg is None or qk == "register" else list(qarg))
@@ -1497,6 +1509,27 @@ def _dv_classify_a2(c, gate, v, tol, l_eff, res, rep):
                                     + ": " + msg)
 
 
+def _form_plan_check(c, node, rep, pre=""):
+    """Cases that hand an option over in a non-canonical form (c['formcheck']): the search is a deterministic function of the
+    option VALUES, so the plan must be the plan of the canonical values (bool, int, float) - qubits, ranks, bipartitions and
+    accounted loss.  (The tie cannot see this for use_low_rank: the candidates `_reduce_entanglement` answers are the model's
+    oracle, and a plan that ignores the flag is still a valid plan.)"""
+    from qclib.state_preparation.util import baa
+    l = float(c["l"]) if 0 <= c["l"] <= 1 or c.get("entry") == "aa" else 0.0
+    ref = baa.adaptive_approximation([complex(a, b) for a, b in c["vec"]], l, c["s"], int(c["c"]), bool(c["u"]))
+
+    def sig(nd):
+        return ([tuple(int(x) for x in q) for q in nd.qubits], [int(x) for x in nd.ranks],
+                [None if p_ is None else tuple(int(x) for x in p_) for p_ in nd.partitions])
+    same = sig(node) == sig(ref) and abs(float(node.total_fidelity_loss) - float(ref.total_fidelity_loss)) <= 1e-12
+    forms = ",".join(f"{k}={c[k]}" for k in ("ltype", "ctype", "utype") if c.get(k))
+    return (case_key(pre + "flagform-plan", c), same,
+            f"options in the form {forms} give the plan qubits={node.qubits} ranks={node.ranks} partitions={node.partitions} "
+            f"loss={node.total_fidelity_loss!r}; the canonical values (max_fidelity_loss={l!r}, max_combination_size={int(c['c'])}, "
+            f"use_low_rank={bool(c['u'])}) give qubits={ref.qubits} ranks={ref.ranks} partitions={ref.partitions} "
+            f"loss={ref.total_fidelity_loss!r}", True, rep)
+
+
 def _plan_checks(c, node, v, R, rep, tol, reduced, pre):
     """The property read off the returned plan alone (no circuit, no synthesis): cover, budget, loss accounting,
     node.state_vector(), plan = input at zero loss, true loss = accounted loss <= budget for n <= 3."""
@@ -1607,6 +1640,8 @@ def run_aa_case(c):
     res["counts"] += sorted(R.bcounts)
     for k in _plan_checks(c, node, v, R, rep, tol, reduced, "aa:"):
         (res["counts"].append(k[1]) if k[0] == "count" else res["checks"].append(k))
+    if c.get("formcheck"):
+        res["checks"].append(_form_plan_check(c, node, rep, "aa:"))
     res["checks"].append((case_key("aa:input-untouched", c), _same_params(P, snap), f"the caller's state object was modified: {P!r}", True, rep))
     return res
 
@@ -1803,6 +1838,65 @@ def _dv_option_types(g):
             for e in ("class", "static"):
                 g.add(e, n, "opttype", vec, l, g.strat(), False, 0, f"ot-l={l}", f"{fam}:max_fidelity_loss-out-of-range-ignored",
                       ltype="int" if isinstance(l, int) else "float")
+
+
+def _dv_flag_forms(g):
+    """The boolean option and the options with a VALID FALSY value, in every form, through every entry point that takes them
+    (constructor, static helper with keywords / all-positional, adaptive_approximation positional / keyword):
+    use_low_rank True and False as bool / numpy.bool_ / int 1, 0 - at n = 3 (no bipartition with two sides of >= 2 qubits: the flag
+    selects nothing) and n = 4, 5 on states with two heavy + two light Schmidt coefficients across a 2|2 cut and a budget between
+    the two truncation losses (the flag decides the plan: rank-2 leaf or none);
+    max_combination_size 0 ("half of the block") as int / numpy.int64 / numpy.int32 next to 1 and 2 under every strategy;
+    max_fidelity_loss 0 as int / float / numpy.float64 / numpy.float32 next to a non-zero one.  Same oracle as every other
+    case; the tie op carries the CANONICAL values (bool, int), so a form read differently from its value by the search is a tie
+    difference; in addition the plan must be the plan of the canonical values (_form_plan_check: a plan that ignores use_low_rank
+    is still a valid plan, and the candidate list of _reduce_entanglement is the model's oracle)."""
+    pr, r = g.pr, g.r
+    ents = [("class", {}), ("static", {}), ("static", {"argpos": True}), ("aa", {"aaform": "pos"}), ("aa", {"aaform": "kw"})]
+    j = pr.randrange(5)
+    for n in (3, 4, 5):
+        # n >= 4: Schmidt spectrum 2 heavy + 2 light across a 2|2 cut of four of the qubits, budget between the loss of the rank-2
+        # and of the rank-1 truncation: with use_low_rank the plan has a rank-2 leaf, without it that cut is not affordable
+        if n == 3:
+            vec, budget = make_vector("haar", n, pr, r), (0.05, 0.2)
+        else:
+            blk, sp = _lr_block(r, 4, [0.8, 0.59, 0.08, 0.05])
+            qs = list(range(n))
+            if n == 5:
+                pr.shuffle(qs)
+            vec = blk if n == 4 else _interleave(5, [sorted(qs[:4]), qs[4:]], [blk, _haar(r, 1)])
+            budget = (1.3 * float((sp[2:] ** 2).sum()),)
+        for u in (True, False):
+            for ut, name in (("bool", "bool"), ("bool_", "np.bool_"), ("int", "int")):
+                j += 1
+                mine = ents if n == 4 else [ents[(j + i) % 5] for i in range(2)]
+                for e, ex in mine:
+                    if n == 5 and e != "aa" and ex.get("argpos"):
+                        ex = {}
+                    c = g.add(e, n, "flagforms", vec, pr.choice(budget), g.strat(), u, pr.choice([0, 2]) if n >= 4 else 0, f"ff-u={name}{int(u)}" + ("-pos" if ex.get("argpos") else ""),
+                              f"option-type:use_low_rank={name}({u})", utype=ut, formcheck=True, **ex)
+                    c["bcount"] += [f"flagforms:use_low_rank:{name}", f"flagforms:use_low_rank:{name}:{u}:via {e}" +
+                                    ("-positional" if ex.get("argpos") or ex.get("aaform") == "pos" else "") + f":n={n}"]
+    for n in (4, 5):
+        vec = make_vector(pr.choice(["lowrank", "haar", "nearprod"]), n, pr, r)
+        for s_ in STRATS:
+            for cv, ct, name in ((0, "int", "int"), (0, "int64", "np.int64"), (0, "int32", "np.int32"), (1, "int", "int"), (1, "int32", "np.int32"),
+                                 (2, "int64", "np.int64")):
+                j += 1
+                e, ex = ents[j % 5]
+                c = g.add(e, n, "flagforms", vec, pr.choice([0.1, 0.3]), s_, pr.random() < 0.5, cv, f"ff-c={name}{cv}", f"option-type:max_combination_size={name}({cv})",
+                          ctype=ct, formcheck=True, **ex)
+                c["bcount"] += [f"flagforms:max_combination_size:{name}", f"flagforms:max_combination_size:{name}:{cv}:{s_}"]
+    for n in (2, 3, 4):
+        vec = make_vector(pr.choice(["nearprod", "groups", "haar"]), n, pr, r)
+        for lv, lt, name in ((0, "int", "int"), (0.0, "float", "float"), (0.0, "float64", "np.float64"), (0.0, "float32", "np.float32"),
+                             (0.25, "float32", "np.float32"), (0.25, "float", "float")):
+            for i in range(2):
+                j += 1
+                e, ex = ents[j % 5]
+                c = g.add(e, n, "flagforms", vec, lv, g.strat(), pr.random() < 0.4, 0, f"ff-l={name}{lv}", f"option-type:max_fidelity_loss={name}({lv})",
+                          ltype=lt, formcheck=True, **ex)
+                c["bcount"] += [f"flagforms:max_fidelity_loss:{name}", f"flagforms:max_fidelity_loss:{name}:{lv}"]
 
 
 def _dv_scale(g):
@@ -2064,6 +2158,7 @@ def gen_diversity_cases(ctx):
     g = _DvGen(ctx)
     _dv_elem_types(g)
     _dv_option_types(g)
+    _dv_flag_forms(g)
     _dv_scale(g)
     _dv_phases(g)
     _dv_call_forms(g)
